@@ -13,12 +13,20 @@ GUARD_TY = re.compile(r"(MutexGuard|RwLockReadGuard|RwLockWriteGuard)")
 
 
 def job_blocks(ctx, fn):
-    """blocks of `fn` whose call invokes a boxed dyn callable (directly or through catch_unwind)"""
+    """blocks of `fn` (possibly a body with helpers inlined) whose call invokes a boxed dyn callable (directly or through catch_unwind)"""
+    from ..callgraph import INVOKERS
     out = []
-    for e in ctx.G.out.get(fn.def_, []):
-        if e.kind in ("dyn-call", "dyn-call-caught"):
-            if e.block not in [b for b, _ in out]:
-                out.append((e.block, e.kind))
+    for b in fn.blocks:
+        if b.get("cleanup"):
+            continue
+        t = b["term"]
+        if t["k"] != "call":
+            continue
+        c = callee_name(t) or ""
+        if c in BOX_DYN_CALL:
+            out.append((b["id"], "dyn-call"))
+        elif c not in ctx.F.fns and any(k in c for k in INVOKERS) and any("dyn std::ops::Fn" in x for x in t.get("gargs", []) + t.get("arg_tys", [])):
+            out.append((b["id"], "dyn-call-caught" if c.startswith("std::panic::catch_unwind") else "dyn-call"))
     return out
 
 
@@ -85,7 +93,7 @@ def run(ctx):
         r0.instance({"anchor": x})
 
     for wc in R.worker_closures:
-        fn = F.fns[wc]
+        fn = ctx.inl(F.fns[wc])      # the worker's loop may live in private helpers (Worker::work, next_job, run_job)
         cfg = cfg_of(fn)
         du = du_of(fn)
         jobs = job_blocks(ctx, fn)
@@ -135,7 +143,11 @@ def run(ctx):
                         continue
                     # from e's target, can the header be reached while avoiding all job blocks?
                     avoid = [b for b, _ in jobs]
-                    reach = cfg.reachable_from(e[1], removed_nodes=avoid)
+                    # feasible paths only: a helper that returns Some(task) / None merges both returns at its call site, the
+                    # caller's `match` separates them again
+                    reach = L.feasible_reach(cfg, e, avoid=avoid, stop=(lp.header,))
+                    if reach is None:
+                        reach = cfg.reachable_from(e[1], removed_nodes=avoid)
                     ok = lp.header not in reach and not any(x in reach for x in cfg.return_blocks())
                     r4.instance({"recv_ok_edge": list(e), "loop_header": lp.header}, ok)
                     if not ok:
@@ -164,7 +176,9 @@ def run(ctx):
                 pfn = F.fns[cfn.parent]
                 pdu = du_of(pfn)
                 maps = [t for _, t in pfn.calls() if (callee_name(t) or "") in ("std::iter::Iterator::map", "std::iter::Iterator::for_each") and cfn.def_ in t.get("fn_items", [])]
-                collected = any((callee_name(t) or "") == "std::iter::Iterator::collect" for _, t in pfn.calls()) or any((callee_name(t) or "") == "std::iter::Iterator::for_each" for t in maps)
+                # the mapped iterator is consumed completely: collect(), for_each(), or Vec::extend(iterator)
+                collected = any((callee_name(t) or "") == "std::iter::Iterator::collect" for _, t in pfn.calls()) or any((callee_name(t) or "") == "std::iter::Iterator::for_each" for t in maps) \
+                    or any(((callee_name(t) or "").endswith("as std::iter::Extend<T>>::extend") or (t.get("callee") or "") == "std::iter::Extend::extend") and "std::iter::Map<" in " ".join(t.get("arg_tys", [])) for _, t in pfn.calls())
                 rng = None
                 for b in pfn.blocks:
                     for s_ in b["stmts"]:
